@@ -276,6 +276,86 @@ class VerifPlain(_go.GridObject):
         return 1
 
 
+def make_countdown(n_states):
+    """a user-defined type with many statuses (a countdown timer, a fuel gauge): fresh class per call"""
+    class VerifCountdown(_go.GridObject):
+        color = _go.Color.NONE
+        blocks_movement = False
+        blocks_vision = False
+        holdable = False
+
+        def __init__(self, n=0):
+            self.n = n
+
+        @property
+        def state_index(self):
+            return self.n
+
+        @classmethod
+        def can_be_represented_in_state(cls):
+            return True
+
+        @classmethod
+        def num_states(cls):
+            return n_states
+
+        def __repr__(self):
+            return f'VerifCountdown({self.n})'
+
+    return VerifCountdown
+
+
+def enum_statuses(tier, shard, nshards):
+    i = 0
+    for n_states in ([300] if tier == 'quick' else [300, 700, 5000]):
+        for kind in ('state', 'obs'):
+            for name in reps.NAMES:
+                i += 1
+                if i % nshards == shard:
+                    yield {'n_states': n_states, 'kind': kind, 'rep': name}
+
+
+def oracle_statuses(case, ctx):
+    """one representation instance sees every status of a type that has hundreds of them, twice, interleaved with ordinary objects:
+    the cell entry depends only on the object in the cell, equal objects encode equally at every time, different ones differently"""
+    from gym_gridverse.agent import Agent
+    from gym_gridverse.geometry import Orientation, Position, Shape
+    from gym_gridverse.grid import Grid
+    from gym_gridverse.observation import Observation
+    from gym_gridverse.representations.observation_representations import make_observation_representation
+    from gym_gridverse.representations.state_representations import make_state_representation
+    from gym_gridverse.spaces import ObservationSpace, StateSpace
+    from gym_gridverse.state import State
+    N, kind, name = case['n_states'], case['kind'], case['rep']
+    CD = make_countdown(N)
+    types, colors = [_go.Floor, _go.Wall, _go.Key, CD], [_go.Color.NONE, _go.Color.RED]
+    if kind == 'state':
+        rep = make_state_representation(name, StateSpace(Shape(2, 3), types, colors))      # (state representations need grids of 2x2 and more)
+    else:
+        rep = make_observation_representation(name, ObservationSpace(Shape(1, 3), types, colors))
+    first = {}
+    fixed = {}
+    order = list(range(N)) + list(range(N - 1, -1, -1)) + [0, N - 1, N // 2]
+    for k, n in enumerate(order):
+        grid = Grid([[_go.Wall(), _go.Key(_go.Color.RED), CD(n)]] + ([[_go.Floor(), _go.Floor(), _go.Floor()]] if kind == 'state' else []))
+        member = (State if kind == 'state' else Observation)(grid, Agent(Position(0, 0), Orientation.F, None))
+        a = guarded(ctx, f'{kind}/{name}.convert', rep.convert, member)
+        cells = [tuple(int(v) for v in a['grid'][0, j]) for j in range(3)]
+        if not rep.space['grid'].contains(a['grid']):
+            ctx.fail(f'{kind}/{name}: with status {n} of {N} the grid array leaves its declared space', {'kind': 'many_statuses'})
+        for j, what in ((0, 'Wall'), (1, 'Key(RED)')):
+            if fixed.setdefault(what, cells[j]) != cells[j]:
+                ctx.fail(f'{kind}/{name}: the encoding of {what} changed from {fixed[what]} to {cells[j]} after {k} conversions (statuses of another type seen in between)', {'kind': 'many_statuses'})
+        if first.setdefault(n, cells[2]) != cells[2]:
+            ctx.fail(f'{kind}/{name}: status {n} encoded as {first[n]} at first and as {cells[2]} after {k} conversions', {'kind': 'many_statuses'})
+        if name == 'default' and cells[2] != (_go.grid_object_registry.index(CD), n, 0):
+            ctx.fail(f'{kind}/default: VerifCountdown({n}) encoded as {cells[2]}, its (type index, status, colour) is {(_go.grid_object_registry.index(CD), n, 0)}', {'kind': 'default_triple'})
+    vals = list(first.values()) + list(fixed.values())
+    if len(set(vals)) != len(vals):
+        ctx.fail(f'{kind}/{name}: two different objects share an encoding among {N} statuses, a wall and a key', {'kind': 'lossless'})
+    ctx.ev.case(case, nt=True, classes=[f'statuses:{N}', 'rep:' + name])
+
+
 CUSTOM = {'VerifCrate': VerifCrate, 'VerifGem': VerifGem, 'VerifPlain': VerifPlain}
 _FRESH = 0
 
@@ -437,4 +517,7 @@ CHECKS = [
     Check('env_reads', oracle_reads, strategy=strat_reads, examples={'quick': 40, 'thorough': 150}, shards={'quick': 4, 'thorough': 16},
           rule='shipped and perturbed configurations x 4-20 ops (step, reset, read, representation switch through the gym method or by assigning the outer environment\'s public attribute): every observation / state handed out == encoding of the inner one by a fresh representation',
           required=['switch_between_reads', 'switch:gym', 'switch:attribute']),
+    Check('many_statuses', oracle_statuses, enumerate=enum_statuses, shards={'quick': 6, 'thorough': 8}, exhaustive=True,
+          rule='a user-defined type with 300 (thorough 700, 5000) statuses: one representation instance converts every status twice (ascending, descending), next to a wall and a key: entries depend only on the object, equal objects encode equally at every time, different ones differently',
+          required=['statuses:300']),
 ]
